@@ -61,8 +61,9 @@ Theorem C11_chunk_bound_run : forall ops s s' outs, inv s -> no_resize ops -> 0 
 Proof. exact chunk_bound_run. Qed.
 Print Assumptions C11_chunk_bound_run.
 
-(* after a flush nothing remains pending; what was pending went to the active sink *)
-Theorem C11_flush_drains : forall s s' d, step s OFlush = Ok (s', d) ->
+(* after a flush, a teardown, and the destruction of the terminal (is_drain) nothing remains
+   pending; what was pending went to the active sink *)
+Theorem C11_flush_drains : forall s o s' d, is_drain o = true -> step s o = Ok (s', d) ->
   pending s' = [] /\ tagged (active s) d /\ forall k, to_sink k d = pend_to k s.
 Proof. exact flush_drains. Qed.
 Print Assumptions C11_flush_drains.
@@ -95,23 +96,35 @@ Theorem C11_checker_sound : forall ops outs k k', check_from k ops outs = Some k
 Proof. exact checker_sound. Qed.
 Print Assumptions C11_checker_sound.
 
+(* a buffer whose allocation fails is no buffer: the terminal is exactly as after size 0 *)
+Theorem C11_failed_alloc_unbuffered : forall s n, 0 <= n ->
+  step s (OSetBufFail n) = step s (OSetBuf 0).
+Proof. exact failed_alloc_unbuffered. Qed.
+Print Assumptions C11_failed_alloc_unbuffered.
+
 (* non-vacuity: function AND descriptor set, a buffer of 3, writes of 2 (NUL-terminated,
    len 0) and 5 bytes that straddle the buffer end twice, an empty formatted write, a flush;
-   then the function is removed while nothing is pending and the descriptor takes over.  The
-   checker accepts the run, rejects it with the last function chunk dropped, and rejects it
-   when the first part's chunks go to the descriptor instead of the function. *)
+   then the function is removed while nothing is pending and the descriptor takes over; a
+   teardown, one more write, the destruction.  The checker accepts the run, rejects it when
+   the write after the teardown is never delivered, and rejects it when the first part's
+   chunks go to the descriptor instead of the function. *)
 Example C11_nonvacuous :
   let ops := [OSetBuf 3; OWrite [97; 98; 0] 0; OWrite [99; 100; 101; 102; 103] 5; OWritef []; OFlush;
-              OSetFunc false; OWrite [104; 105] 2; OFlush] in
+              OSetFunc false; OWrite [104; 105] 2; OTeardown; OWrite [106] 1; ODestroy] in
   let good := [[]; []; [(SFunc, [97; 98; 99]); (SFunc, [100; 101; 102])]; []; [(SFunc, [103])];
-               []; []; [(SFd, [104; 105])]] in
+               []; []; [(SFd, [104; 105])]; []; [(SFd, [106])]] in
   run (init true true) ops = Ok (mkOB 3 [] false true, good) /\
   stream_to SFunc true true ops = Some [97; 98; 99; 100; 101; 102; 103] /\
-  stream_to SFd true true ops = Some [104; 105] /\
+  stream_to SFd true true ops = Some [104; 105; 106] /\
   config_when_drained (init true true) ops /\
   check true true ops good = true /\
-  check true true ops [[]; []; [(SFunc, [97; 98; 99]); (SFunc, [100; 101; 102])]; []; [];
-                       []; []; [(SFd, [104; 105])]] = false /\
+  (* what was written after the teardown is never delivered *)
+  check true true ops [[]; []; [(SFunc, [97; 98; 99]); (SFunc, [100; 101; 102])]; []; [(SFunc, [103])];
+                       []; []; [(SFd, [104; 105])]; []; []] = false /\
+  (* the buffered chunks go to the descriptor instead of the function *)
   check true true ops [[]; []; [(SFd, [97; 98; 99]); (SFd, [100; 101; 102])]; []; [(SFd, [103])];
-                       []; []; [(SFd, [104; 105])]] = false.
+                       []; []; [(SFd, [104; 105])]; []; [(SFd, [106])]] = false /\
+  (* a buffer whose allocation fails leaves the terminal unbuffered *)
+  run (init true false) [OSetBufFail 18446744073709551615; OWrite [97; 98] 2; ODestroy]
+    = Ok (mkOB 0 [] true false, [[]; [(SFunc, [97; 98])]; []]).
 Proof. exact OutBufProofs.nonvacuous. Qed.
